@@ -327,15 +327,20 @@ def make_handler(fctx):
 _DECODER = []
 
 
-def decode(w):
-    """real ServerDecoder on the PDU bytes; None if the PDU does not decode (struct.error etc.)"""
+def decode_outcome(w):
+    """real ServerDecoder on the PDU bytes -> (request object | None, 'ok' | 'none' | exception class name)"""
     from pymodbus.factory import ServerDecoder
     if not _DECODER:
         _DECODER.append(ServerDecoder())
     try:
-        return _DECODER[0].decode(pdu_of(w))
-    except Exception:  # noqa: BLE001
-        return None
+        req = _DECODER[0].decode(pdu_of(w))
+    except Exception as e:  # noqa: BLE001 — the exception class is the observation
+        return None, pyexn(e)
+    return (req, "ok") if req is not None else (None, "none")
+
+
+def decode(w):
+    return decode_outcome(w)[0]
 
 
 def adus(pdu, uid=1, tid=7):
@@ -429,9 +434,12 @@ class History(object):
         self.last_obs = None
 
     def request(self, w):
-        """returns False if the PDU does not decode (nothing recorded)"""
-        req = decode(w)
+        """returns False if the PDU never became a request object (recorded as HUndecoded)"""
+        req, how = decode_outcome(w)
         if req is None:
+            self.items.append("HUndecoded (%s) %s" % (wire_term(w), "DecodedNone" if how == "none" else "(DecodeRaised %s)" % how))
+            self.desc.append({"wire": list(w), "undecoded": how})
+            self.last_obs = ("Undecoded", how)
             return False
         via = "ServerDecoder"
         if self.framers:
